@@ -48,6 +48,10 @@ def main():
             from .check_c13 import run
 
             sys.exit(run(a.tier))
+        if prop == "C14":
+            from .check_c14 import run
+
+            sys.exit(run(a.tier))
         if prop == "C19":
             from .check_c19 import run
 
